@@ -134,7 +134,9 @@ def run(prop, tier, seed):
     results["asan"] = (cases,) + utilchan.run("asan", cases, wd, "asan", jobs=4, case_timeout=2.0)
     # natively an out-of-bounds write corrupts the heap of the replay process itself and nothing stops it: one process
     # per sequence, so that a crash is attributed to the sequence that caused it
-    results["native"] = (cases,) + utilchan.run("native", cases, wd, "native", jobs=4, case_timeout=5.0, isolate=True)
+    # (quick tier: a seed-chosen third of them; ASan above has run all of them with real addresses already)
+    nat = cases if not quick else sorted(rnd.sample(cases, min(len(cases), max(200, len(cases) // 3))), key=lambda c: c["id"])
+    results["native"] = (nat,) + utilchan.run("native", nat, wd, "native", jobs=4, case_timeout=5.0, isolate=True)
 
     def predicted_ub(c):
         return any(a["oob"] for a in c["aw"]) or any(x["align"] > 1 for x in c["allocs"])
@@ -183,7 +185,7 @@ def run(prop, tier, seed):
             mism = [{"field": "%s@%d" % (x["pred"], x["k"]), "want": "holds", "got": x["detail"]}
                     for x in v["viol"] if x["key"] == key]
             first = mism[0]
-            rep.finding(key, dict(c, channel=v["channel"]),
+            rep.finding(key, dict(c, channel=v["channel"], id="%s@%s" % (c["id"], v["channel"])),
                         {"status": o["status"], "ub": o.get("ub"), "steps": o["steps"]}, mism,
                         "Arena %s (%s): %s %s" % (c["id"], v["channel"], first["field"], first["got"]))
 
@@ -199,7 +201,7 @@ def run(prop, tier, seed):
         "rule": "allocation sequences = all sequences of (size, align) requests up to the configured length over %d types and "
                 "%d initial capacities enumerated by TLC (exhaustive part: %d), plus seed-%d random sequences of length 6 (%d); "
                 "distinct = distinct (capacity, sequence); non-trivial = at least two different (size, align) types; each is "
-                "replayed under ASan and natively (own process), a seed-chosen sample under Miri; all observations are judged "
+                "replayed under ASan, natively in its own process (quick tier: a third of them), a seed-chosen sample under Miri; all observations are judged "
                 "by TLC (C38val.tla)" % (len(sizes), len({c["cap"] for c in cases}), len(ex), seed, len(sim)),
         "sequences": len(cases), "exhaustive_part": len(ex), "random_part": len(sim),
         "requests_by_type": dict(sizes),
